@@ -14,6 +14,8 @@ lock-file visibility of every job):
   * the error the workflow fails with names every failed job (and there is no error without a failure).
 """
 
+import time
+
 from props import _schedharness as H
 
 INF = H.INF
@@ -23,7 +25,8 @@ INF = H.INF
 SMALL = ["chain2", "chain3", "indep2", "indep3", "fanout", "fanin", "diamond", "one+chain2", "split2", "split2>b", "split2!>b"]
 MEDIUM = ["one+chain3", "chain2+chain2", "fanin3", "diamond+one", "a>split2>c", "split2+chain2", "split2+plain>c", "split3!>b+one", "split3>b", "chain4"]
 LARGE = ["indep4", "split2,split2>c", "split2>diamond", "chain3+b>split2", "chain6", "split4>b"]
-MEDIUM_QUICK = ["one+chain3", "chain2+chain2", "fanin3", "diamond+one", "a>split2>c", "split2+chain2", "split2+plain>c", "chain4"]
+LARGE_EXH = ["indep4", "chain3+b>split2", "chain6", "split4>b"]
+MEDIUM_QUICK = ["one+chain3", "chain2+chain2", "diamond+one", "a>split2>c", "split2+chain2"]
 PROBED = ["one+chain2", "fanin", "split2!>b", "chain3"]
 DELAY1 = ["chain2", "chain3", "indep2", "fanout", "fanin", "one+chain2", "split2", "split2!>b", "diamond"]
 SAMPLED = LARGE + ["diamond+one", "split3>b"]
@@ -54,14 +57,14 @@ def tasks_exhaustive(ctx):
                 t.append((H.Opts(sp, loop=loop, fail=99, vis=(0, 1, INF)), 0, 2))
         for sp in MEDIUM_QUICK:
             t.append((H.Opts(sp, loop="real", fail=99, vis=(0, INF)), 0, 3))
-        for sp in LARGE:
+        for sp in LARGE_EXH:
             for vis in ((0,), (INF,)):
-                t.append((H.Opts(sp, loop="real", fail=2, vis=vis), 0, 3))
+                t.append((H.Opts(sp, loop="real", fail=1, vis=vis), 0, 3))
     return t
 
 
 def tasks_sampled(ctx):
-    n = ctx.pick(20, 300)
+    n = ctx.pick(12, 300)
     t = []
     for sp in SAMPLED:
         for loop in ("mirror", "real"):
@@ -93,7 +96,7 @@ def run(ctx):
                 + f"; the same with has_errored/all_failed/done read on every node after every observation for {SMALL if ctx.thorough else PROBED}; "
                 f"workflows {MEDIUM if ctx.thorough else MEDIUM_QUICK} (4-6 jobs): every order x every failing subset with lock visibility all-seen / none-seen"
                 + (
-                    f"; several completions between two observations for {SMALL}; visibility delay in {{0, 1, never}} for {DELAY1}; per-job visibility for {MEDIUM_QUICK}; {LARGE} with <= 2 failing jobs"
+                    f"; several completions between two observations for {SMALL}; visibility delay in {{0, 1, never}} for {DELAY1}; per-job visibility for {MEDIUM_QUICK}; {LARGE_EXH} with <= 1 failing job and visibility all-seen / none-seen"
                     if ctx.thorough
                     else ""
                 )
@@ -103,7 +106,7 @@ def run(ctx):
         )
         dom2 = ctx.domain(
             "failing-subsets x completion-orders (sampled, larger workflows)",
-            bound=f"workflows {SAMPLED} (4-10 jobs), random scripts: any failing subset, visibility delay in {{0,1,never}}, several completions per observation; {ctx.pick(20, 300)} scripts per workflow and loop, seed {ctx.seed}",
+            bound=f"workflows {SAMPLED} (4-10 jobs), random scripts: any failing subset, visibility delay in {{0,1,never}}, several completions per observation; {ctx.pick(12, 300)} scripts per workflow and loop, seed {ctx.seed}",
             rule="one case = one random script; distinct by choice list; non-trivial = at least one job fails",
             exhaustive=False,
         )
@@ -113,7 +116,10 @@ def run(ctx):
                 ctx.note(f"{k}: exhaustive {st.get(k, {})}; sampled {st2.get(k, {})}")
             else:
                 ctx.note(f"{k}: {st.get(k, 0) + st2.get(k, 0)}")
-        for line in e2e.result():
+        t_pool = time.time() - ctx.t0
+        lines = e2e.result()
+        ctx.note(f"timing: enumeration finished after {t_pool:.0f} s, end-to-end runs after {time.time() - ctx.t0:.0f} s")
+        for line in lines:
             ctx.note("end-to-end replay aid (real workers, timing dependent, NOT part of the verdict): " + line)
     finally:
         H.cleanup()
